@@ -23,9 +23,13 @@ let run (line : string) : string =
       let sl = b01 (segments_link (cfg_compact true) p toks) ^ b01 (segments_link (cfg_pretty tab true true) p toks)
                ^ b01 (segments_link (cfg_pretty [] false true) p toks) in
       let ic = b01 (idents_covered (cfg_compact true) p toks) ^ b01 (idents_covered (cfg_pretty tab true true) p toks) in
-      Printf.sprintf "errs=%d m=%s wf=%s mL=%s wfL=%s tp=%s ct=%s pc=%s sl=%s ic=%s lt=%s un=%s rt=%s" (min 1 (List.length r.pr_errors)) (b01 (m_program p toks)) (b01 (wf_program p))
+      Printf.sprintf "errs=%d m=%s wf=%s mL=%s wfL=%s tp=%s ct=%s pc=%s sl=%s ic=%s lt=%s un=%s rt=%s ne=%s" (min 1 (List.length r.pr_errors)) (b01 (m_program p toks)) (b01 (wf_program p))
         (b01 (m_programL p toks)) (b01 (wf_programL p)) (b01 (token_preserving p toks)) (b01 ct) (b01 pc) sl ic (b01 (match toks with t :: _ -> t.t_comments <> [] | [] -> false))
         (let un cfg = (compile cfg p).r_code = (run_wops cfg (write_program p)).w_buf in b01 (un (cfg_pretty tab true true)) ^ b01 (un (cfg_pretty [] false true)))
         (match reparse_compact p with
          | None -> "N"
          | Some r2 -> b01 (r2.pr_errors = [] && shape_program r2.pr_program = shape_program p))
+        (let z = Util.z_of_int in
+         match parse_tokens (cfg_with [SI_Probe (z 1)] [EI_Probe (z 2); EI_Reentrant; EI_Probe (z 3)]) toks with
+         | None -> "N"
+         | Some r3 -> b01 (nesting_reflected r3.pr_program r3.pr_final.ps_log) ^ "/" ^ string_of_int (List.length r3.pr_final.ps_log))
